@@ -39,7 +39,10 @@ GEOS = {
     "G2": {"args": (0.5, 0.32, 14, 30, 0.04, 0.07, 0.4, 0.3, 2, 3, 0.1, 0.15, 0.5, 0.95),
            "base": (0.4, -0.3, 0.2, 0.1, -0.15, 0.3), "maxdev": 50, "draw": (0.6, 0.4, 0.05, 0.1)},
 }
-QUICK_SUBSETS = ["0000", "1111", "1000", "0010"]
+# quick: none, all, and every single switch (a predicate whose margin is loosened shows only where the other switches
+# cannot repair the pose first); the re-spun start runs for the subsets in QUICK_SPUN
+QUICK_SUBSETS = ["0000", "1111", "1000", "0100", "0010", "0001"]
+QUICK_SPUN = ["1111", "1000", "0010"]
 ALL_SUBSETS = ["%d%d%d%d" % (a, b, c, d) for a in (0, 1) for b in (0, 1) for c in (0, 1) for d in (0, 1)]
 SWITCH_NAMES = sps.NAMES        # validation_settings[i] <-> legs, above, deflection, tilt
 
@@ -406,6 +409,8 @@ def run(ctx):
         for bits in subsets:
             for geo in GEOS:
                 for start in starts:
+                    if start == "spun" and bits not in QUICK_SPUN:
+                        continue
                     name = "%s|%s|%d|%s" % (geo, bits, ctx.seed, start)
                     if ctx.deadline - time.time() < 45.0:       # not enough left to finish a level: say so, do not start it
                         skipped.append(name)
@@ -417,7 +422,7 @@ def run(ctx):
     cov["geometries"] = list(GEOS)
     cov["switch_subsets"] = subsets
     cov["depth_requested"] = depth
-    cov["starts"] = starts
+    cov["starts"] = starts if thorough else {"fresh": subsets, "spun": QUICK_SPUN}
     sp0 = get_spec(results[0][0])
     cov["rule"] = ("BFS over histories of {IK x%d targets (in, too high, too low, tilted, below the base, far sideways, five targets "
                    "just beyond one limit each%s), IK(protect) far sideways, FK x4 length vectors x2 fk_modes, reverse FK, "
